@@ -280,8 +280,14 @@ func (g *Gen) applyContract(fr *frame, st *State, fc *FuncContract, key string, 
 	}
 	g.bindResults(post, res, callee, cc)
 	for i, c := range fc.Ensures {
-		env := &Env{g: g, st: st, old: pre, vars: post, pkgPath: pkgPath}
+		nerr := 0
+		env := &Env{g: g, st: st, old: pre, vars: post, pkgPath: pkgPath, quietErrs: &nerr}
 		t := env.evalBool(c.E)
+		if nerr > 0 {
+			// the clause mentions the callee's locals (it is checked inside the callee): not usable at a call site
+			g.note("clause " + shortKey(key) + "#post." + clauseName(c, i) + " mentions locals of the callee and is not used at call sites")
+			continue
+		}
 		// a clause with a recorded finding is not assumed inside the failing class (or at all, if the
 		// finding has no witness class): callers must not build on what is known to be false
 		if f, ok := g.W.Findings[shortKey(key)+"#post."+clauseName(c, i)]; ok {
@@ -1314,8 +1320,32 @@ func (g *Gen) stableComps() map[string]bool {
 				continue
 			}
 		}
+		if fe, ok := e.(*Field); ok {
+			if id, ok := fe.X.(*Ident); ok {
+				if _, isVar := env.vars[id.Name]; !isVar {
+					if imp := env.findImport(id.Name); imp != nil {
+						if o, ok := imp.Scope().Lookup(fe.Name).(*types.Var); ok {
+							// an imported package-level variable that opaque callees do not assign
+							for _, l := range g.W.shapes.shape(o.Type()) {
+								g.stableKeys["V|"+shortPkg(imp)+"."+fe.Name+"|"+l.Path] = true
+							}
+							g.note("package-level variable assumed not to be assigned by opaque callees: " + g.fc.StableSrc[i])
+							continue
+						}
+					}
+				}
+			}
+		}
 		lv, err := env.evalLV(e)
-		if err != nil || lv.Kind != lvHeap {
+		if err == nil && lv != nil && lv.Kind == lvGlobal {
+			// a package-level variable that opaque callees do not assign
+			for _, l := range g.W.shapes.shape(lv.T) {
+				g.stableKeys["V|"+lv.Global+"|"+lv.Path+l.Path] = true
+			}
+			g.note("package-level variable assumed not to be assigned by opaque callees: " + g.fc.StableSrc[i])
+			continue
+		}
+		if err != nil || lv == nil || lv.Kind != lvHeap {
 			g.errorf("stable clause %q: %v", g.fc.StableSrc[i], err)
 			continue
 		}
